@@ -404,7 +404,20 @@ class PendingFor(_PendingLoop[For]):
 
         self.nsp.loop_stack.append(self)
 
+    def _bind_target(self) -> Name:
+        """
+        Iterate over a temporary and assign the real target through the
+        namespace, so that the target is a normal variable of the
+        enclosing scope (it survives the loop, may be rebound in the body,
+        may live in a class body or be captured by a closure).
+        """
+        tmp = Name(id=ol_name(OL_FOR_TMP), ctx=Load())
+        binder = PendingAssign(self.node, self.nsp, self.nsp_global)  # type: ignore
+        self.converted_body[0:0] = binder.assign_auto(self.node.target, tmp)
+        return Name(id=tmp.id, ctx=Store())
+
     def get_result(self) -> list[expr]:
+        loop_target = self._bind_target()
         # if no break/continue/return used
         # use the simplest list comprehension
         if self.interrupt_cnt == 0 and len(self.node.orelse) == 0:
@@ -413,7 +426,7 @@ class PendingFor(_PendingLoop[For]):
                     elt=self.nsp_global.expr_wraper(self.converted_body),
                     generators=[
                         comprehension(
-                            target=self.node.target,
+                            target=loop_target,
                             iter=expr_transf(self.nsp, self.node.iter),
                             ifs=[],
                             is_async=0,
@@ -484,7 +497,7 @@ class PendingFor(_PendingLoop[For]):
             elt=self.nsp_global.expr_wraper(self.converted_body),
             generators=[
                 comprehension(
-                    target=self.node.target,
+                    target=loop_target,
                     iter=for_loop_iter,
                     ifs=[],
                     is_async=0,
